@@ -170,6 +170,9 @@ static std::ostream& operator<<(std::ostream& os, const SetsFail&)
     return os;
 }
 
+// a callable with id 900 + n reconfigures the logger while it is being evaluated: it sets threshold 0 to n
+static void (*g_set_thr0)(int) = nullptr;
+
 struct Lazy
 {
     int id;
@@ -177,6 +180,8 @@ struct Lazy
     std::string operator()() const
     {
         g_events.push_back("lazy " + std::to_string(id));
+        if (id >= 900 && g_set_thr0)
+            g_set_thr0(id - 900);
         return text;
     }
 };
@@ -382,6 +387,7 @@ template <typename L>
 static void run_ops(const std::string& ops)
 {
     using R = Record;
+    g_set_thr0 = [](int n) { T0<Record>::set_severity(static_cast<sl>(n)); };
     T0<R>::set_severity(sl::trace);
     T1<R>::set_severity(sl::trace);
     T2<R>::set_severity(sl::trace);
